@@ -250,6 +250,7 @@ def main(argv=None):
     edges = set()
     viol = {}
     incon = []
+    ekinds = {}
     for r in results:
         evaluations += r.get("execs", 0)
         keys.update(r.get("keys", []))
@@ -259,6 +260,8 @@ def main(argv=None):
             counters[k] = counters.get(k, 0) + v
         for k, v in (r.get("counters_global") or {}).items():
             gcount[k] = gcount.get(k, 0) + v
+        for k, v in (r.get("event_kinds") or {}).items():
+            ekinds[k] = ekinds.get(k, 0) + v
         for s in r.get("samples", []):
             if len(samples) < 6:
                 samples.append(s)
@@ -325,6 +328,7 @@ def main(argv=None):
             "monitor_counters": counters,
             "engagement": {"bound_names": engage.get("bound"), "instrumented_code_objects": engage.get("code_objects"),
                            "totals": gcount},
+            "boundary_events_by_kind": dict(sorted(ekinds.items(), key=lambda kv: -kv[1])[:25]),
             "placement_sites": len(sites),
             "placement_sites_sample": sorted(sites)[:25],
             "lock_order_edges": sorted(edges)[:60],
